@@ -2,8 +2,18 @@ module verif/harness
 
 go 1.21
 
-require github.com/failsafe-go/failsafe-go v0.0.0
+require (
+	github.com/failsafe-go/failsafe-go v0.0.0
+	google.golang.org/grpc v1.67.1
+)
 
-require github.com/bits-and-blooms/bitset v1.20.0 // indirect
+require (
+	github.com/bits-and-blooms/bitset v1.20.0 // indirect
+	golang.org/x/net v0.28.0 // indirect
+	golang.org/x/sys v0.24.0 // indirect
+	golang.org/x/text v0.17.0 // indirect
+	google.golang.org/genproto/googleapis/rpc v0.0.0-20240814211410-ddb44dafa142 // indirect
+	google.golang.org/protobuf v1.36.4 // indirect
+)
 
 replace github.com/failsafe-go/failsafe-go => /repo
